@@ -67,6 +67,7 @@ type Proc struct {
 	Entry     *Block
 	Blocks    []*Block
 	RangeFact func(c *Cell) Expr // type invariant for a havocked cell (may return nil)
+	ElemInv   func(c *Cell, sel Expr) Expr // type invariant of one element read from a typed memory / heap cell
 	Props     []string
 }
 
@@ -153,6 +154,7 @@ type vcgen struct {
 	obls    []*Obligation
 	counter map[string]int
 	oblSeq  map[string]int
+	seenElem map[string]bool
 }
 
 func (g *vcgen) emit(l string) { g.script = append(g.script, l) }
@@ -164,8 +166,18 @@ func (g *vcgen) fresh(base string, s Sort) *Var {
 }
 
 func sanitize(s string) string {
-	r := strings.NewReplacer(" ", "_", "(", "_", ")", "_", "*", "p", "/", "_", ",", "_", "[", "_", "]", "_", "|", "_", "#", "_", ";", "_", "\"", "_")
-	return r.Replace(s)
+	var sb strings.Builder
+	for _, c := range s {
+		switch {
+		case c >= 'a' && c <= 'z', c >= 'A' && c <= 'Z', c >= '0' && c <= '9', c == '_', c == '.', c == '$', c == '@', c == '!', c == '-', c == '=', c == '<', c == '>':
+			sb.WriteRune(c)
+		case c == '*':
+			sb.WriteByte('p')
+		default:
+			sb.WriteByte('_')
+		}
+	}
+	return sb.String()
 }
 
 func (g *vcgen) declare(v *Var) { g.emit(fmt.Sprintf("(declare-const %s %s)", v.Name, v.S)) }
@@ -184,6 +196,7 @@ func (g *vcgen) define(base string, e Expr, st vcState) Expr {
 		}
 		return v
 	}
+	g.elemFacts(e, st)
 	v := g.fresh(base, e.Sort())
 	g.emit(fmt.Sprintf("(define-fun %s () %s %s)", v.Name, v.S, PrintIn(e, st)))
 	return v
@@ -204,7 +217,82 @@ func (g *vcgen) fact(guard Expr, e Expr, st vcState) {
 	if isLit(f, "true") {
 		return
 	}
+	g.elemFacts(e, st)
 	g.emit("(assert " + PrintIn(f, st) + ")")
+}
+
+// elemFacts: every ground read of a typed memory or heap cell that occurs in e
+// satisfies its element type's invariant (0 <= byte < 256, slice well-formedness, ...).
+// These are emitted as ground facts at the point of use; quantified range axioms
+// over whole arrays amplify the array theory's instantiations badly.
+func (g *vcgen) elemFacts(e Expr, st vcState) {
+	if g.p.ElemInv == nil || e == nil {
+		return
+	}
+	var walk func(x Expr, bound map[string]bool)
+	mentionsBound := func(x Expr, bound map[string]bool) bool {
+		if len(bound) == 0 {
+			return false
+		}
+		found := false
+		var w func(y Expr)
+		w = func(y Expr) {
+			switch z := y.(type) {
+			case *Var:
+				if bound[z.Name] {
+					found = true
+				}
+			case *App:
+				for _, a := range z.Args {
+					w(a)
+				}
+			case *Quant:
+				w(z.Body)
+			}
+		}
+		w(x)
+		return found
+	}
+	walk = func(x Expr, bound map[string]bool) {
+		switch z := x.(type) {
+		case *App:
+			if z.Op == "select" && len(z.Args) == 2 {
+				var c *Cell
+				switch a := z.Args[0].(type) {
+				case *Cell:
+					c = a
+				case *App:
+					if a.Op == "select" {
+						if cc, ok := a.Args[0].(*Cell); ok {
+							c = cc
+						}
+					}
+				}
+				if c != nil && !mentionsBound(z, bound) {
+					if inv := g.p.ElemInv(c, z); inv != nil {
+						txt := "(assert " + PrintIn(inv, st) + ")"
+						if !g.seenElem[txt] {
+							g.seenElem[txt] = true
+							g.emit(txt)
+						}
+					}
+				}
+			}
+			for _, a := range z.Args {
+				walk(a, bound)
+			}
+		case *Quant:
+			nb := map[string]bool{}
+			for k := range bound {
+				nb[k] = true
+			}
+			for _, v := range z.Vars {
+				nb[v.Name] = true
+			}
+			walk(z.Body, nb)
+		}
+	}
+	walk(e, nil)
 }
 
 func (g *vcgen) obligation(guard Expr, c Cmd, st vcState) {
@@ -213,6 +301,7 @@ func (g *vcgen) obligation(guard Expr, c Cmd, st vcState) {
 	if !strings.Contains(name, "#") {
 		name = fmt.Sprintf("%s#%d", c.Name, g.oblSeq[c.Name])
 	}
+	g.elemFacts(c.E, st)
 	goal := "(assert (not " + PrintIn(Implies(guard, c.E), st) + "))"
 	o := &Obligation{Proc: g.p.Name, Name: g.p.Name + "/" + name, Props: c.Props, ExpectSat: c.ExpectSat,
 		prefix: len(g.script), goal: goal, script: &g.script, Meta: c.Meta}
@@ -234,7 +323,7 @@ func GenVCs(p *Proc, prelude []string) (obls []*Obligation, err error) {
 			panic(r)
 		}
 	}()
-	g := &vcgen{p: p, counter: map[string]int{}, oblSeq: map[string]int{}}
+	g := &vcgen{p: p, counter: map[string]int{}, oblSeq: map[string]int{}, seenElem: map[string]bool{}}
 	g.script = append(g.script, prelude...)
 
 	// --- back edges (DFS) ---
